@@ -151,8 +151,15 @@ def run_case(case):
     if spec.get("fast_ratio"):
         pairs[0] = (rnd.choice(["gen", "top"]), pairs[0][1])
     for mode, prune in pairs:
+        kw = {}
+        if rnd.random() < 0.4:
+            kw["extra_padding"] = rnd.randint(1, 3)  # replay must not depend on the (admissible) buffer configuration
         try:
-            G = C.build_compiled(nodes, sup, cg, mode=mode, prune=prune)
+            G = C.build_compiled(nodes, sup, cg, mode=mode, prune=prune, **kw)
+            if rnd.random() < 0.3:
+                sizes = {k: int(max(v) + rnd.randint(0, 2)) for k, v in G._buffer_sizes.items() if len(v)}
+                G = C.build_compiled(nodes, sup, cg, mode=mode, prune=prune, buffer_sizes=sizes, **kw)
+                kw["buffer_sizes"] = sizes
         except C.Rejected as e:
             items.append(dict(status="rejected", key=f"{dg}/{mode}/{prune}", nontrivial=False, note=str(e)[:120]))
             counters["rejected_graph"] += 1
@@ -196,7 +203,7 @@ def run_case(case):
             if V:
                 items.append(dict(status="violated", key=key, nontrivial=nontriv,
                                   witness=dict(mechanism=V[0]["clause"], violations=V[:4], spec=spec, mode=mode, prune=prune, episode=e, lengths=lengths,
-                                               drive=drive, compiled_drive="reset/step" if use_step else "rollout", features=S.features(spec))))
+                                               drive=drive, compiled_drive="reset/step" if use_step else "rollout", features=S.features(spec), graph_kwargs=kw)))
             else:
                 items.append(dict(status="held", key=key, nontrivial=nontriv))
         samples.append(dict(spec_digest=dg, features=S.features(spec), lengths=lengths, async_drive=drive, mode=mode, prune=prune, partitions=n_part,
